@@ -118,7 +118,7 @@ func alphabet(backend string) []Op {
 	}
 	// an expiry that already lies in the past when written (real Redis keeps such a key for 1 ms: the backend view
 	// lets 5 ms of the server clock pass after such a write) and "never" expiries (year 2300 / 9999)
-	a = append(a, Op{K: "Put", Key: "a", Val: 2, Exp: -1}, Op{K: "Put", Key: "a", Val: 1, Exp: kvmodel.Never2}, Op{K: "Create", Key: "b", Val: 2, Exp: kvmodel.Never1})
+	a = append(a, Op{K: "Put", Key: "a", Val: 2, Exp: -1}, Op{K: "Put", Key: "a", Val: 1, Exp: kvmodel.Never2}, Op{K: "Create", Key: "b", Val: 2, Exp: kvmodel.Never1}, Op{K: "Put", Key: "a", Val: 3, Exp: kvmodel.ZeroTime})
 	return a
 }
 
@@ -134,6 +134,8 @@ func matrix(backend string) []kase {
 		{{K: "Put", Key: "a", Val: 2, Exp: kvmodel.Never2}},
 		{{K: "Create", Key: "a", Val: 2, Exp: kvmodel.Never1}},
 		{{K: "Put", Key: "a", Val: 1}, {K: "Put", Key: "a", Val: 3, Exp: -1}},
+		{{K: "Put", Key: "a", Val: 1}, {K: "Put", Key: "a", Val: 3, Exp: kvmodel.ZeroTime}},
+		{{K: "PutMany", Keys: []string{"b", "a"}, Val: 2, Exps: []int{0, kvmodel.ZeroTime}}},
 	}
 	unrelated := [][]Op{
 		{},
@@ -210,7 +212,7 @@ func TestCheck(t *testing.T) {
 		run.Note("first_touch_of_an_expired_key_by_operation", sh.firstTouch)
 		run.Finish(t)
 	})
-	run.Rule("(i) first-toucher matrix: 9 ways to write a short-lived, already expired or never expiring (year 2300 / 9999) record x 4 unrelated interludes x 3 clock advances x 17 first touchers x 9 second touchers; (ii) 1-3 waiters parked while the record is alive, 0..n-1 of them (the earliest) give up, clock advanced past the expiry; (iii)/(iv) every sequence over 26 operation instances (writes with short/long/no/past/never expiry on 2 keys; Redis: the server-side time to live of every written key is compared with the given expiry, all readers, Advance 1/3/2000 units) to the depth bound plus seeded random sequences; each followed by a full observation (Get, GetMany, ListKeys, Create); (vi) inmem, real scheduling: readers of an expired, not yet purged record race a writer of a record without expiry (80 000 / 3 200 000 rounds), the written record must survive; (v) inmem on the real clock: a record without expiry is written right at the expiry of its predecessor while waiters are parked on it and a long ListKeys keeps the lock busy - it must survive. Compared call by call with the contract model with a logical clock. distinct = distinct logical store states (presence, value, remaining lifetime, last write) reached")
+	run.Rule("(i) first-toucher matrix: 11 ways to write a short-lived, already expired (also: expiry pointing to the zero time) or never expiring (year 2300 / 9999) record x 4 unrelated interludes x 3 clock advances x 17 first touchers x 9 second touchers; (ii) 1-3 waiters parked while the record is alive, 0..n-1 of them (the earliest) give up, clock advanced past the expiry; (iii)/(iv) every sequence over 26 operation instances (writes with short/long/no/past/never expiry on 2 keys; Redis: the server-side time to live of every written key is compared with the given expiry, all readers, Advance 1/3/2000 units) to the depth bound plus seeded random sequences; each followed by a full observation (Get, GetMany, ListKeys, Create); (vii) Redis: the record expires / is deleted by somebody else between the read and the write of a CasByVersion holding its current version (server pre-hook before MULTI / SET / EXEC): only nil (and then stored) or ErrNotExist are explainable; (vi) inmem, real scheduling: readers of an expired, not yet purged record race a writer of a record without expiry (80 000 / 3 200 000 rounds), the written record must survive; (v) inmem on the real clock: a record without expiry is written right at the expiry of its predecessor while waiters are parked on it and a long ListKeys keeps the lock busy - it must survive. Compared call by call with the contract model with a logical clock. distinct = distinct logical store states (presence, value, remaining lifetime, last write) reached")
 	run.Assume("expirations lie at half clock units and the clock moves in whole units, so the exact expiry instant is never sampled")
 	run.Assume("inmem: testing/synctest virtual clock; Redis: miniredis, whose clock is the sum of FastForward calls")
 
@@ -242,6 +244,18 @@ func TestCheck(t *testing.T) {
 			}
 		}(i)
 	}
+	rwg.Add(1)
+	go func() {
+		defer rwg.Done()
+		run.Eval(1)
+		if v := casAcrossExpiry(run); v != nil {
+			if strings.HasPrefix(v.Sig, "inconclusive/") {
+				run.Inconclusive(v.What)
+				return
+			}
+			run.Violation(v.Sig, v.What, map[string]any{"scenario": "cas-across-expiry", "backend": "redis"})
+		}
+	}()
 	for i := 0; i < run.Pick(4, 16); i++ {
 		rwg.Add(1)
 		go func(i int) {
@@ -454,6 +468,62 @@ func expiryRace(run *report.Run, seed int64) *kvmodel.Vio {
 	return nil
 }
 
+// casAcrossExpiry (Redis): the record a CasByVersion was given the current version of expires (or is deleted by
+// somebody else) while the call is under way - between its read and its write (injected by the server's pre-hook
+// right before EXEC / before the n-th command of the call). Before that instant the version matches, after it
+// the key is absent: the only explainable results are nil (then Get returns what was written) and ErrNotExist.
+func casAcrossExpiry(run *report.Run) *kvmodel.Vio {
+	rs, err := kvmodel.NewRedisServer()
+	if err != nil {
+		return &kvmodel.Vio{Sig: "inconclusive/miniredis", What: err.Error()}
+	}
+	defer rs.Close()
+	bg := context.Background()
+	for _, how := range []string{"expire", "delete"} {
+		for _, at := range []string{"EXEC", "MULTI", "SET"} {
+			rs.InstallDefaultHook()
+			rs.MR.FlushAll()
+			exp := time.Now().Add(time.Hour)
+			r0, err := rs.S.Put(bg, kvs.Record{Key: "cx", Value: []byte("0"), ExpiresAt: &exp})
+			if err != nil {
+				return &kvmodel.Vio{Sig: "redis/Put/error", What: err.Error()}
+			}
+			var fired atomic.Bool
+			rs.MR.Server().SetPreHook(func(_ *server.Peer, cmd string, _ ...string) bool {
+				if cmd == at && fired.CompareAndSwap(false, true) {
+					if how == "expire" {
+						rs.MR.FastForward(2 * time.Hour)
+					} else {
+						rs.MR.Del("/kvs/cx")
+					}
+				}
+				return false
+			})
+			got, cerr := rs.S.CasByVersion(bg, kvs.Record{Key: "cx", Value: []byte("1"), Version: r0.Version})
+			rs.InstallDefaultHook()
+			if !fired.Load() {
+				continue // this backend version does not send that command inside a CAS: nothing was injected
+			}
+			run.Add("redis_cas_across_expiry_cases", 1)
+			desc := fmt.Sprintf("the record was made to %s right before the %s command of a CasByVersion that was given its current version", how, at)
+			switch {
+			case cerr == nil:
+				g, gerr := rs.S.Get(bg, "cx")
+				if gerr != nil || g.Version != got.Version || string(g.Value) != "1" {
+					return &kvmodel.Vio{Sig: "redis/Cas/success-not-stored", What: fmt.Sprintf("%s; it returned nil (version %s) but Get returns (%q, %q, %v)", desc, got.Version, g.Value, g.Version, gerr)}
+				}
+			case errors.Is(cerr, gerrors.ErrNotExist):
+				if _, gerr := rs.S.Get(bg, "cx"); !errors.Is(gerr, gerrors.ErrNotExist) {
+					return &kvmodel.Vio{Sig: "redis/Cas/not-exist-but-present", What: fmt.Sprintf("%s; it returned ErrNotExist but Get afterwards returns %v", desc, gerr)}
+				}
+			default:
+				return &kvmodel.Vio{Sig: "redis/Cas/unexplainable-result-across-expiry", What: fmt.Sprintf("%s; it returned %v: before that instant the version matched, afterwards the key was absent - only nil or ErrNotExist can be explained", desc, cerr)}
+			}
+		}
+	}
+	return nil
+}
+
 // purgeRace (inmem, real scheduling): a record that is expired but still physically stored (nobody touched the
 // key since) is read by several goroutines - each of them may purge it - while one goroutine writes a record
 // WITHOUT expiry under the same key. Whatever the order: the write succeeded and nobody deleted, so afterwards the
@@ -532,8 +602,11 @@ func randomCase(backend string, seed int64, i int) kase {
 		case 4:
 			return 1000
 		default:
-			if rng.Intn(3) == 0 {
+			switch rng.Intn(4) {
+			case 0:
 				return kvmodel.Never1 + rng.Intn(2)
+			case 1:
+				return kvmodel.ZeroTime
 			}
 			return -1 - rng.Intn(2)
 		}
